@@ -191,6 +191,16 @@ claim("C09", "model_checking",
       "TLA+ contract spec (KindValues.tla) evaluated by TLC over kind tables and store events recorded from the real "
       "inference and interpreter; programs are TLC-generated behaviours of ProgGen.tla")
 
+claim("C15", "exploration",
+      "every configuration of the grid (hash seeds x container presentations x generation history x target) is "
+      "executed in subprocesses on programs of the 'fortran' profile; the Python text, the Fortran text and the "
+      "interpreter's observable results are recorded chunk by chunk and TLC steps all runs of one program in lock "
+      "step (self-composition), reporting the first differing chunk",
+      "hash seeds only sample set iteration orders; the specification has no model of the generators -- it "
+      "contributes the lock-step comparison; programs are sampled",
+      "self-composition spec (SelfComp.tla, ObservationalDeterminism) checked by TLC over outputs recorded from "
+      "the real generators in enumerated configurations")
+
 NOT_YET = "check not built yet (work in progress, see DESIGN.md section 11)"
 NOT_APPLICABLE = {}
 
